@@ -111,7 +111,12 @@ func safeHandle(line string) (res string) {
 			if os.Getenv("VERIF_DEBUG") != "" {
 				fmt.Fprintf(os.Stderr, "panic: %v\n%s\n", r, debug.Stack())
 			}
-			res = "panic -"
+			// keep what panicked in the result: such events can be rare and schedule-dependent
+			st := string(debug.Stack())
+			if len(st) > 1800 {
+				st = st[:1800]
+			}
+			res = "panic p" + hx(fmt.Sprint(r)+"\n"+st)
 		}
 	}()
 	toks := strings.Split(line, " ")
